@@ -455,3 +455,34 @@ pub fn run_random(ctx: &mut Ctx) {
         check_iup(ctx, &case, "random");
     }
 }
+
+/// Hand-designed inputs (boundary situations of the optimiser's rules).
+pub fn run_designed(ctx: &mut Ctx) {
+    let ph = [(0, 0), (100, 0), (0, 0), (0, 0)];
+    let phd = [(0, 0); 4];
+    let mut cases: Vec<(Vec<(i32, i32)>, Vec<(i32, i32)>, f64)> = vec![
+        // two retained neighbours with the same x coordinate whose x deltas
+        // differ before rounding (10.0 / 10.25 -> inference 0) but not after and the point
+        // between them has a small delta (0.25): quarter units
+        (vec![(0, 0), (5, 10), (0, 20)], vec![(40, 0), (1, 40), (41, 80)], 0.5),
+        (vec![(0, 0), (5, 10), (0, 20)], vec![(41, 0), (1, 40), (42, 80)], 0.5),
+        // same with integer deltas (inference must give 0 or the common value)
+        (vec![(0, 0), (5, 10), (0, 20)], vec![(40, 0), (0, 40), (44, 80)], 0.5),
+        (vec![(0, 0), (5, 10), (0, 20)], vec![(40, 0), (40, 40), (40, 80)], 0.0),
+        // square, linear deltas
+        (vec![(0, 0), (10, 0), (20, 0), (20, 10), (10, 10), (0, 10)], vec![(0, 0), (20, 0), (40, 0), (40, 0), (20, 0), (0, 0)], 0.0),
+        // delta exactly at tolerance distance
+        (vec![(0, 0), (10, 0), (20, 0), (10, 10)], vec![(0, 0), (24, 0), (40, 0), (0, 40)], 1.0),
+        (vec![(0, 0), (10, 0), (20, 0), (10, 10)], vec![(0, 0), (12, 16), (40, 0), (0, 40)], 1.0),
+    ];
+    for (i, (c, d, tol)) in cases.drain(..).enumerate() {
+        let n = c.len();
+        let mut coords = c;
+        coords.extend_from_slice(&ph);
+        let mut deltas_q = d;
+        deltas_q.extend_from_slice(&phd);
+        let case = IupCase { coords, deltas_q, ends: vec![n - 1], tol };
+        let _ = i;
+        check_iup(ctx, &case, "designed");
+    }
+}
